@@ -250,6 +250,11 @@ func runPool(units []Unit, procs int) []UnitResult {
 				}
 				if !ok {
 					r = UnitResult{Unit: u, Name: u.Name, Infra: fmt.Sprintf("worker failed: %v\nstderr: %s", err, tail(stderr.String(), 4000))}
+					if where := productionCrash(stderr.String()); where != "" {
+						// the code under test crashed the (free-running) worker: a verdict, not a harness failure
+						r = UnitResult{Unit: u, Name: u.Name, Viol: []FoundViolation{{Scenario: u.Name, Violation: Violation{Property: u.Prop, Rule: "crash", Norm: "runner-crashes:" + where,
+							Msg: "the process running the real runner crashed in production code during this unit:\n" + tail(stderr.String(), 3000)}}}}
+					}
 				}
 				results[i] = r
 			}
@@ -553,4 +558,38 @@ func init() {
 	propMeta["C12"] = propInfo{Level: "model_checking", Assumptions: append([]string{"log directories are real (FileOutputStore in a temp directory), written by the mock runner through the store"}, rmcAssumptions...),
 		Rule:        "explicit-state BFS over histories of schedule / task outcome / cancel / clock advance / reload (pipeline removed) / save events for retention_count in {0,1,2} x retention_period in {0,1h}, optionally starting from jobs loaded from an earlier run; after every save the reference retention rules and the agreement of API, store and log directories are checked",
 		Explanation: "explicit-state BFS over event histories with a retention oracle at every save"}
+}
+
+// productionCrash inspects the stderr of a dead worker: if it died from a Go panic / fatal error whose
+// innermost non-runtime frame is production code of the repository, it returns that function name
+func productionCrash(stderr string) string {
+	i := strings.Index(stderr, "\npanic: ")
+	if i < 0 {
+		i = strings.Index(stderr, "\nfatal error: ")
+	}
+	if i < 0 && (strings.HasPrefix(stderr, "panic: ") || strings.HasPrefix(stderr, "fatal error: ")) {
+		i = 0
+	}
+	if i < 0 {
+		return ""
+	}
+	lines := strings.Split(stderr[i:], "\n")
+	for k := 0; k+1 < len(lines); k++ {
+		fn, loc := strings.TrimSpace(lines[k]), strings.TrimSpace(lines[k+1])
+		if !strings.HasPrefix(loc, "/") {
+			continue
+		}
+		file := strings.Fields(loc)[0]
+		if strings.HasPrefix(fn, "runtime.") || strings.HasPrefix(fn, "panic(") || strings.Contains(file, "/src/runtime/") {
+			continue
+		}
+		if strings.HasPrefix(file, "/repo/") && !strings.HasPrefix(file, "/repo/zverif/") && !strings.Contains(file, "_verif.go") {
+			if j := strings.Index(fn, "("); j > 0 && !strings.HasPrefix(fn, "github.com/Flowpack/prunner.(") {
+				fn = fn[:j]
+			}
+			return fn
+		}
+		return "" // the innermost frame is harness or library code
+	}
+	return ""
 }
